@@ -12,8 +12,12 @@ namespace Bartiq
 /-- **the parser computes the standard reading** (usual precedence, left-associative `+ - * / // %`, right-associative power
     binding tighter than a unary sign on its left and admitting a signed exponent, parentheses, calls) of EVERY token string of
     the grammar — unbounded length and nesting -/
-theorem C11_parser_is_standard_reading {ts : List Tok} {t : SExpr} (h : Reads ts t) :
-    ∃ f0, ∀ f, f0 ≤ f → pExpr f ts = some (t, []) := parser_is_standard_reading h
+theorem C11_parser_is_standard_reading {ts : List Tok} {t : SExpr} (h : Reads ts t) : parseToks ts = some t :=
+  parseToks_complete h
+
+/-- the recursion depth the parser needs is at most 6 × (number of tokens) + 4 — `parseToks` runs with 6 × tokens + 10 -/
+theorem C11_fuel_bound {ts : List Tok} {t : SExpr} (h : Reads ts t) :
+    ∃ f0, f0 ≤ 6 * ts.length + 4 ∧ ∀ f, f0 ≤ f → pExpr f ts = some (t, []) := parser_is_standard_reading h
 
 /-- the standard reading is unique -/
 theorem C11_reading_unique {ts : List Tok} {t t' : SExpr} (h : Reads ts t) (h' : Reads ts t') : t = t' := reading_unique h h'
